@@ -127,7 +127,9 @@ def payload_root(fn, local, depth=0):
 
 
 def try_branch_of(fn, call_bb):
-    """if the result of the call at call_bb flows into `Try::branch`, return (branch_bb, switch_bb, cont_target, break_target)"""
+    """if the result of the call at call_bb is propagated with `?` (Try::branch), return (branch_bb, switch_bb, cont_target, break_target).
+    The spelled-out form `match call(..) { Ok(v) => v, Err(e) => return Err(..) }` (also for Option) is the same thing and is returned as
+    (call_bb, switch_bb, ok_target, err_target) when the failure arm leaves the function with a failure value and never rejoins the success path."""
     t = fn.term(call_bb)
     d = call_dest_local(t)
     if d is None:
@@ -139,6 +141,32 @@ def try_branch_of(fn, call_bb):
                 for sb, s in switches_on_call_result(fn, b):
                     st = fn.term(sb)
                     return (b, sb, edge_target(st, 0), edge_target(st, 1))
+    for sb, s in switches_on_call_result(fn, call_bb):
+        if s["kind"] == "discr" and s["variants"]:
+            names = set(s["variants"].values())
+            good = "Ok" if names == {"Ok", "Err"} else ("Some" if names == {"Some", "None"} else None)
+            if good is None:
+                continue
+            bad = "Err" if good == "Ok" else "None"
+            gt, bt_ = variant_target(fn, sb, good), variant_target(fn, sb, bad)
+            if gt is None or bt_ is None or gt == bt_:
+                continue
+            reach = fn.reachable_from(bt_)
+            if gt in reach:
+                continue
+            # the failure arm assigns a failure value to the return place and returns
+            fails = False
+            for b2 in reach:
+                for st2 in fn.stmts(b2):
+                    if st2["k"] == "assign" and P(st2["place"])[0] == 0 and st2["rv"]["k"] == "aggregate" and st2["rv"].get("variant") in ("Err", "None"):
+                        fails = True
+                t2 = fn.term(b2)
+                if t2["k"] == "call" and call_dest_local(t2) == 0 and callee_is(t2["callee"], "core::ops::try_trait::FromResidual::from_residual"):
+                    fails = True
+            succeeds = any(st2["k"] == "assign" and P(st2["place"])[0] == 0 and st2["rv"]["k"] == "aggregate" and st2["rv"].get("variant") in ("Ok", "Some")
+                           for b2 in reach for st2 in fn.stmts(b2))
+            if fails and not succeeds and any(fn.term(b2)["k"] == "return" for b2 in reach):
+                return (call_bb, sb, gt, bt_)
     return None
 
 
@@ -312,8 +340,8 @@ def affine_form(fn, param_local=2):
     return None
 
 
-def affine_form_opaque(fn):
-    """Like affine_form, but the variable is 'the single opaque non-constant leaf' (used when the
+def affine_form_opaque(fn, root_local=0):
+    """(root_local: the local whose value is evaluated; default the return value.)  Like affine_form, but the variable is 'the single opaque non-constant leaf' (used when the
     closure looks its operand up, e.g. `1 + 2 * sizes.get(&id).unwrap()`): returns (a, b, leafdesc)."""
     leaves = []
 
@@ -361,6 +389,9 @@ def affine_form_opaque(fn):
                 return leaf("deref of argument _%d" % l)
             if d and d[0] == "assign" and d[3]["k"] == "use":
                 p2 = op_place(d[3]["op"])
+                if p2 is not None and not p2[1]:
+                    # a named copy of a reference (`let size = map.get(..).unwrap(); 2 * size`)
+                    return ev_place((p2[0], (("deref",),)), depth + 1)
                 if p2 is not None:
                     return leaf("deref of " + pstr(p2))
             return None
@@ -417,10 +448,80 @@ def affine_form_opaque(fn):
                 return None
         return None
 
-    r = ev_local(0, 0)
+    r = ev_local(root_local, 0)
     if r is None:
         return None
     return (r[0], r[1], leaves[0] if leaves else None)
+
+
+ARITH_CALLS = ("core::num::<impl usize>::saturating_mul", "core::num::<impl usize>::saturating_add", "core::num::<impl usize>::saturating_sub",
+               "core::num::<impl usize>::wrapping_mul", "core::num::<impl usize>::wrapping_add", "core::num::<impl usize>::checked_mul",
+               "core::num::<impl usize>::checked_add", "core::ops::arith::Mul::mul", "core::ops::arith::Add::add", "core::ops::arith::Sub::sub")
+
+
+def arithmetic_sites(prog, f, root_op):
+    """Integer arithmetic that feeds the value `root_op` of f: in f itself (backward slice, also through `v.push(x)`-style mutation) and in
+    the closures handed to calls of that slice (backward slice of their return value).  Returns [(fn, local, affine form or None)] for the
+    maximal arithmetic expressions (those not themselves an operand of further arithmetic)."""
+    sl, info = f.slice_locals(root_op, mut_calls=True)
+    units = [(f, sl)]
+    for b, t in info["calls"]:
+        for a in t["args"]:
+            cp = closure_of_operand(f, a)
+            g = prog.fn(cp) if cp else None
+            if g is not None:
+                units.append((g, g.slice_locals(0, mut_calls=True)[0]))
+    out = []
+    for g, gsl in units:
+        def is_arith(l):
+            d = g.single_def(l)
+            if d is None:
+                return None
+            if d[0] == "assign" and d[3]["k"] == "binop" and d[3]["op"].replace("WithOverflow", "").replace("Unchecked", "") in ("Add", "Sub", "Mul") and \
+                    g.local_ty(l).replace("(", "").split(",")[0].strip() in ("usize", "u64", "u32", "isize", "i64", "i32"):
+                return [d[3]["l"], d[3]["r"]]
+            if d[0] == "call" and (d[2]["callee"].get("path") or "") in ARITH_CALLS and len(d[2]["args"]) == 2 and \
+                    any(x in " ".join(d[2]["callee"].get("args", []) + [d[2]["callee"].get("path") or ""]) for x in ("usize", "u64", "u32")):
+                return d[2]["args"]
+            return None
+
+        def through(op):
+            """the arithmetic local an operand carries (copies, references, `.0` of a checked pair)"""
+            for _ in range(12):
+                p = op_place(op)
+                if p is None:
+                    return None
+                l, proj = p
+                if proj and not (len(proj) == 1 and proj[0][0] == "field" and proj[0][1] == 0):
+                    tgt = g.resolve_ptr(l) if proj == (("deref",),) else None
+                    if tgt is None:
+                        return None
+                    l, proj = tgt
+                    if proj:
+                        return None
+                if is_arith(l) is not None:
+                    return l
+                tgt = g.resolve_ptr(l)
+                if tgt is not None and not tgt[1]:
+                    op = {"k": "copy", "place": {"l": tgt[0], "p": []}}
+                    continue
+                d = g.single_def(l)
+                if d and d[0] == "assign" and d[3]["k"] == "use":
+                    op = d[3]["op"]
+                    continue
+                return None
+            return None
+        ar = [l for l in sorted(gsl) if is_arith(l) is not None]
+        nonmax = set()
+        for l in ar:
+            for o in is_arith(l):
+                m = through(o)
+                if m is not None and m != l:
+                    nonmax.add(m)
+        for l in ar:
+            if l not in nonmax:
+                out.append((g, l, affine_form_opaque(g, root_local=l)))
+    return out
 
 
 # ------------------------------------------------------------------------------------
